@@ -1,6 +1,7 @@
 (* C20 model runner: one request per line (fields separated by one space)
      print <sexp>          the program dump of parser.VerifC20ParsePrint  -> hex of the model's Program.String()
      lexas <sexp>          does the model's text lex back (under the parser's protocol) to the printer's tokens: 1 | 0
+     fits <sexp>           fitsb of every expression of the program in its context -> ok=.. fail=.. out=.. argfalseonly=..
      num <bits>            NumExpr.String()                               -> hex
      quote <hex>           strconv.Quote                                  -> hex
      fregex <hex>          formatRegex                                    -> hex
@@ -92,6 +93,50 @@ let program_of (s : sexp) : program =
           | x -> failwith ("func " ^ to_string x)) fs }
   | _ -> failwith "program"
 
+(* ---- does every expression the parser built respect C04's table (fitsb), in its context ---- *)
+let rec in_fragment (e : expr) : bool =
+  match e with
+  | ENum _ | EStr _ | EStrRegex _ | ERegex _ | EVar _ -> true
+  | EField i -> in_fragment i
+  | ENamedField _ | ECall _ | EMulti _ | EGetline _ -> false
+  | EIndex (_, l) | EIn (l, _) | EUserCall (_, l) -> List.for_all in_fragment l
+  | EUnary (_, v) -> in_fragment v
+  | EBinary (_, l, r) | EAssign (l, r) | EAugAssign (_, l, r) -> in_fragment l && in_fragment r
+  | ECond (c, t, f) -> in_fragment c && in_fragment t && in_fragment f
+  | EIncr (_, _, x) | EGroup x -> in_fragment x
+
+type fstat = { mutable ok : int; mutable fail : int; mutable out : int; mutable arg_false_only : int }
+
+let fits_program (p : program) : string =
+  let st = { ok = 0; fail = 0; out = 0; arg_false_only = 0 } in
+  let plain e =
+    if not (in_fragment e) then st.out <- st.out + 1
+    else if fitsb false O e then st.ok <- st.ok + 1 else st.fail <- st.fail + 1 in
+  let arg e =
+    if not (in_fragment e) then st.out <- st.out + 1
+    else if fitsb true O e then st.ok <- st.ok + 1
+    else if fitsb false O e then st.arg_false_only <- st.arg_false_only + 1
+    else st.fail <- st.fail + 1 in
+  let opt f = function Some e -> f e | None -> () in
+  let rec stmt s =
+    match s with
+    | SPrint (_, args, _, dest) -> List.iter arg args; opt plain dest
+    | SExpr e -> plain e
+    | SIf (c, b, e) -> plain c; List.iter stmt b; List.iter stmt e
+    | SFor (pre, c, post, b) -> opt stmt pre; opt plain c; opt stmt post; List.iter stmt b
+    | SForIn (_, _, b) -> List.iter stmt b
+    | SWhile (c, b) -> plain c; List.iter stmt b
+    | SDo (b, c) -> List.iter stmt b; plain c
+    | SBreak | SContinue | SNext | SNextfile -> ()
+    | SExit e | SReturn e -> opt plain e
+    | SDelete (_, idx) -> List.iter plain idx
+    | SBlock b -> List.iter stmt b in
+  List.iter (List.iter stmt) p.p_begin;
+  List.iter (fun a -> List.iter plain a.a_pattern; (match a.a_body with Some b -> List.iter stmt b | None -> ())) p.p_actions;
+  List.iter (List.iter stmt) p.p_end;
+  List.iter (fun f -> List.iter stmt f.f_body) p.p_funcs;
+  Printf.sprintf "ok=%d fail=%d out=%d argfalseonly=%d" st.ok st.fail st.out st.arg_false_only
+
 let tok_word (t : tok) : string =
   match t with
   | TNewline -> "NL" | TAdd -> "+" | TAddAssign -> "+=" | TAnd -> "&&" | TAppend -> ">>" | TAssign -> "="
@@ -127,6 +172,7 @@ let handle_line (line : string) : string =
   | "lexas" ->
       let ps = pprogram (program_of (Sexp.parse arg)) in
       if lex_as false (toks ps) (render ps) then "1" else "0"
+  | "fits" -> fits_program (program_of (Sexp.parse arg))
   | "num" -> hex_of_bytes (fmt_num (of_bits (z_of_string arg)))
   | "quote" -> hex_of_bytes (quote (bytes_of_hex arg))
   | "fregex" -> hex_of_bytes (format_regex (bytes_of_hex arg))
